@@ -154,4 +154,73 @@ theorem C06_sort_order_total (a b c : Str) :
     (strLt a b = false → strLt b a = false → a = b) :=
   ⟨strLt_irrefl a, strLt_trans, strLt_total⟩
 
+
+/-! ### 2. frame: after `READ` the database matters only through the view of the cited keys
+
+`Agree K db₁ db₂` (`Lemmas/Engine.lean`): for every key of `K` both databases have an entry, of
+the same type, with the same value for every field name — own or inherited along the `crossref`
+chain (`bstFieldValue`, C14) — and the same `crossref` value (`bstCrossrefValue`).
+`Good K db₁ s`: `s` is a state of the run on `db₁` (`s.db = some db₁`) whose current entry (if
+any) and citations are keys of `K`.  `setDb db₂ s` is `s` with the database replaced by `db₂`.
+`SimR K db₁ db₂ r₁ r₂`: both results are the same error, or `r₁ = ok s₁`, `r₂ = ok (setDb db₂ s₁)`
+with `Good K db₁ s₁` — same stack, variables, entry variables, buffer, output lines, citations,
+current entry, preamble, reports and printed text; only the database differs. -/
+
+/-- THE frame theorem.  If two databases agree on the keys `K`, then from two states that differ
+in the database only, every piece of the interpreter — a popped value, a variable, a token, a
+function body, a `while$` loop, every built-in (for every amount of fuel), `ITERATE`/`REVERSE`
+over keys of `K`, every command except `READ`, every `READ`-free program — produces results that
+again differ in the database only (or the same error). -/
+theorem C06_frame (K : List Str) (db₁ db₂ : BibData) (hA : Agree K db₁ db₂) (fuel : Nat) :
+    (∀ v s, Good K db₁ s → SimR K db₁ db₂ (execVal fuel v s) (execVal fuel v (setDb db₂ s))) ∧
+    (∀ o s, Good K db₁ s → SimR K db₁ db₂ (execObj fuel o s) (execObj fuel o (setDb db₂ s))) ∧
+    (∀ t s, Good K db₁ s → SimR K db₁ db₂ (execTok fuel t s) (execTok fuel t (setDb db₂ s))) ∧
+    (∀ ts s, Good K db₁ s → SimR K db₁ db₂ (execBody fuel ts s) (execBody fuel ts (setDb db₂ s))) ∧
+    (∀ p f s, Good K db₁ s → SimR K db₁ db₂ (whileLoop fuel p f s) (whileLoop fuel p f (setDb db₂ s))) ∧
+    (∀ b s, Good K db₁ s → SimR K db₁ db₂ (runBuiltin fuel b s) (runBuiltin fuel b (setDb db₂ s))) ∧
+    (∀ f keys s, (∀ k ∈ keys, k ∈ K) → Good K db₁ s →
+        SimR K db₁ db₂ (iterate fuel f keys s) (iterate fuel f keys (setDb db₂ s))) ∧
+    (∀ (inp₁ inp₂ : Input) c s, upper c.name ≠ "READ".toList → Good K db₁ s →
+        SimR K db₁ db₂ (runCommand fuel inp₁ c s) (runCommand fuel inp₂ c (setDb db₂ s))) ∧
+    (∀ (inp₁ inp₂ : Input) prog s, (∀ c ∈ prog, upper c.name ≠ "READ".toList) → Good K db₁ s →
+        SimR K db₁ db₂ (runProgram fuel inp₁ prog s) (runProgram fuel inp₂ prog (setDb db₂ s))) := by
+  obtain ⟨h1, h2, h3, h4, h5, h6⟩ := frame_all hA fuel
+  exact ⟨h1, h2, h3, h4, h5, h6,
+    fun f keys s hk g => iterate_sim hA fuel f keys hk s g,
+    fun inp₁ inp₂ c s hc g => runCommand_sim hA fuel inp₁ inp₂ c hc s g,
+    fun inp₁ inp₂ prog s hp g => runProgram_sim hA fuel inp₁ inp₂ prog hp s g⟩
+
+/-- Two whole runs of a style `pre; READ; post` (no other `READ`) on two inputs with the same
+citation list: if the two `READ` steps — whatever the `.bib` texts or reader databases are —
+leave states that differ in the database only (same resolved citations, preamble, reports) and
+the two databases agree on the resolved citations, then the runs are equal: same `.bbl` text,
+same reports, same printed output, or the same error. -/
+theorem C06_frame_run (fuel : Nat) (inp₁ inp₂ : Input) (pre post : Bst.Program) (rd : Bst.Command)
+    (hcit : inp₁.citations = inp₂.citations)
+    (hpre : ∀ c ∈ pre, upper c.name ≠ "READ".toList) (hrd : upper rd.name = "READ".toList)
+    (hpost : ∀ c ∈ post, upper c.name ≠ "READ".toList)
+    (hread : ∀ s, runProgram fuel inp₁ pre { vars := initVars, citations := inp₁.citations } = .ok s →
+      ∃ s₁ db₁ db₂, runCommand fuel inp₁ rd s = .ok s₁ ∧ s₁.db = some db₁ ∧
+        runCommand fuel inp₂ rd s = .ok (setDb db₂ s₁) ∧ Agree s₁.citations db₁ db₂) :
+    run fuel (pre ++ rd :: post) inp₁ = run fuel (pre ++ rd :: post) inp₂ := by
+  simp only [run, ← hcit, runProgram_append]
+  rw [← runProgram_inp fuel inp₁ inp₂ pre _ hpre]
+  have hk := runProgram_keep fuel inp₁ pre hpre { vars := initVars, citations := inp₁.citations } rfl
+  cases hp : runProgram fuel inp₁ pre { vars := initVars, citations := inp₁.citations } with
+  | error e => rfl
+  | ok s =>
+    rw [hp] at hk
+    obtain ⟨s₁, db₁, db₂, h1, hdb, h2, hA⟩ := hread s hp
+    simp only [runProgram, h1, h2]
+    have hcur : s₁.cur = none := by
+      rw [runCommand_read fuel inp₁ rd s hrd] at h1
+      injection h1 with h1
+      rw [← h1]
+      exact hk.1
+    have g : Good s₁.citations db₁ s₁ :=
+      ⟨hdb, fun k hk' => (by rw [hcur] at hk'; exact nomatch hk'), fun c hc => hc⟩
+    rcases (runProgram_sim hA fuel inp₁ inp₂ post hpost s₁ g).cases with ⟨e, h3, h4⟩ | ⟨s', h3, h4, -⟩ <;>
+      simp only [h3, h4]
+    rfl
+
 end Pybtex.Props
